@@ -11,6 +11,7 @@ import PasfmtModel.Model.ParserFull
 import PasfmtModel.Model.WrapStage
 import PasfmtModel.Model.WrapStageFull
 import PasfmtModel.Model.PipelineFull
+import PasfmtModel.Model.LayoutCheck
 
 namespace Pasfmt
 
@@ -256,6 +257,20 @@ def handleFull (cfgS inpS alnumS : String) : String :=
     | some out => s!"out={toHex out}"
   | _, _, _ => "bad-record"
 
+/-- the `full2` stream: two layouts of the same tokens through the closed model, plus the premises of the layout
+    theorem (C06.C06_format_full_checked) evaluated on the pair -/
+def handleFull2 (cfgS inpS inp2S alnumS : String) : String :=
+  match parseCfg cfgS, ofHex inpS, ofHex inp2S, (parseList alnumS).mapM ofHex with
+  | some cfg, some inp, some inp2, some alnum =>
+    let al : Bytes → Bool := fun b => alnum.contains b
+    match formatFull cfg al inp, formatFull cfg al inp2 with
+    | some out, some out2 =>
+      let status := layoutStatus cfg al inp inp2
+      let thm := if layoutPremisesB cfg al inp inp2 then (if out == out2 then "ok" else "BROKEN") else "na"
+      s!"out={toHex out}\tout2={toHex out2}\tinfo_c06={status}\tinfo_c06thm={thm}"
+    | _, _ => "model-none"
+  | _, _, _, _ => "bad-record"
+
 def parseParent (s : String) : Option (Option LineParent) :=
   if s == "-" then some none else
   match s.splitOn "." with
@@ -421,6 +436,7 @@ def handleLine (line : String) : String :=
   | ["pfull", kinds, nl] => handlePfull kinds nl
   | ["wsearch", cfg, inp, kinds, lines, alnum] => handleWsearch cfg inp kinds lines alnum
   | ["full", cfg, inp, alnum] => handleFull cfg inp alnum
+  | ["full2", cfg, inp, inp2, alnum] => handleFull2 cfg inp inp2 alnum
   | ["io", mode, enc, content, header, fmtT, decT, encT] => handleIo mode enc content header fmtT decT encT
   | ["sched", workers] => handleSched workers
   | ["cfg", dirs, file, ov, known, valid, defaults] => handleCfg dirs file ov known valid defaults
